@@ -73,6 +73,29 @@ theorem k1d2_gradient (p : K1d2.P) (hD : 0 < p.D) (x y : ℝ) (h : ¬(x = p.xd0 
     field_simp
     nlinarith
 
+/-- first arrival is unique: the burn time equals the detonation time ONLY at the detonator -/
+theorem k1d2_eq_td_iff (p : K1d2.P) (hD : 0 < p.D) (q : E2) :
+    K1d2.burntime p (q 0) (q 1) = p.t_d ↔ q = K1d2.det p := by
+  rw [k1d2_eq_cone p hD]; unfold cone
+  constructor
+  · intro h
+    have h0 : dist q (K1d2.det p) / p.D = 0 := by linarith
+    rcases div_eq_zero_iff.mp h0 with h1 | h1
+    · exact dist_eq_zero.mp h1
+    · exact absurd h1 hD.ne'
+  · rintro rfl; simp
+
+/-- … and everywhere else the front arrives strictly later -/
+theorem k1d2_gt (p : K1d2.P) (hD : 0 < p.D) (q : E2) (hq : q ≠ K1d2.det p) :
+    p.t_d < K1d2.burntime p (q 0) (q 1) :=
+  lt_of_le_of_ne (k1d2_ge p hD q) (fun h => hq ((k1d2_eq_td_iff p hD q).mp h.symm))
+
+/-- causality (one-sided form of the Lipschitz bound): a point cannot burn later than a neighbour
+plus the travel time between them at speed D -/
+theorem k1d2_causal (p : K1d2.P) (hD : 0 < p.D) (q q' : E2) :
+    K1d2.burntime p (q 0) (q 1) ≤ K1d2.burntime p (q' 0) (q' 1) + dist q q' / p.D := by
+  have := (abs_le.mp (k1d2_lipschitz p hD q q')).2; linarith
+
 /-! #### 3-D -/
 
 theorem k1d3_at_detonator (p : K1d3.P) (hD : 0 < p.D) : K1d3.burntime p p.xd0 p.xd1 p.xd2 = p.t_d := by
@@ -122,6 +145,29 @@ theorem k1d3_gradient (p : K1d3.P) (hD : 0 < p.D) (x y z : ℝ) (h : ¬(x = p.xd
       · exfalso; rw [← h'] at hs2; nlinarith
     field_simp
     nlinarith
+
+/-- first arrival is unique: the burn time equals the detonation time ONLY at the detonator -/
+theorem k1d3_eq_td_iff (p : K1d3.P) (hD : 0 < p.D) (q : E3) :
+    K1d3.burntime p (q 0) (q 1) (q 2) = p.t_d ↔ q = K1d3.det p := by
+  rw [k1d3_eq_cone p hD]; unfold cone
+  constructor
+  · intro h
+    have h0 : dist q (K1d3.det p) / p.D = 0 := by linarith
+    rcases div_eq_zero_iff.mp h0 with h1 | h1
+    · exact dist_eq_zero.mp h1
+    · exact absurd h1 hD.ne'
+  · rintro rfl; simp
+
+/-- … and everywhere else the front arrives strictly later -/
+theorem k1d3_gt (p : K1d3.P) (hD : 0 < p.D) (q : E3) (hq : q ≠ K1d3.det p) :
+    p.t_d < K1d3.burntime p (q 0) (q 1) (q 2) :=
+  lt_of_le_of_ne (k1d3_ge p hD q) (fun h => hq ((k1d3_eq_td_iff p hD q).mp h.symm))
+
+/-- causality (one-sided form of the Lipschitz bound): a point cannot burn later than a neighbour
+plus the travel time between them at speed D -/
+theorem k1d3_causal (p : K1d3.P) (hD : 0 < p.D) (q q' : E3) :
+    K1d3.burntime p (q 0) (q 1) (q 2) ≤ K1d3.burntime p (q' 0) (q' 1) (q' 2) + dist q q' / p.D := by
+  have := (abs_le.mp (k1d3_lipschitz p hD q q')).2; linarith
 
 /-- non-vacuity: the hypotheses hold at the solver's defaults (D = 1, x_d = 0, t_d = 0) -/
 example : ∃ p : K1d2.P, 0 < p.D ∧ ¬((1 : ℝ) = p.xd0 ∧ (2 : ℝ) = p.xd1) := ⟨⟨1, 0, 0, 0⟩, by norm_num, by norm_num⟩
